@@ -193,7 +193,7 @@ def main(tier):
         seeds = corpus.small_slice(max_lines=25)
         its = universe.zero_dev(seeds, styles=(None,)) + universe.zero_dev([s for s in seeds if s.startswith("fix/")], styles=("jcl",))
     else:
-        seeds = [s for s in corpus.seed_ids(("fix", "cls")) if len(corpus.lines_of(s)) <= 40] + [s for s in corpus.small_slice() if s.startswith("gen/")]
+        seeds = [s for s in corpus.seed_ids(("fix", "cls")) if len(corpus.lines_of(s)) <= 30] + [s for s in corpus.small_slice() if s.startswith("gen/")]
         its = universe.zero_dev(seeds, styles=(None,)) + universe.zero_dev([s for s in seeds if s.startswith("fix/")][::3], styles=("jcl",))
     # the same seeds with trailing whitespace on one line (the file-wide clean-up after phase 1 must not reach the disk on its own)
     tws = []
@@ -210,7 +210,7 @@ def main(tier):
         "only violations on listed lines); for line-local rules (documented whitespace/indent/alignment/case) the changed lines are within the selection (plus trailing-whitespace-only lines) and "
         "every listed line that (r,'all') changes is changed; non-trivial = seeds with at least one fixable reporting rule",
         ["more than 24 line selections per rule are cut to the first and last 12 (reported in evidence as not exhaustive only if that happened: it does not on S_q)"],
-        extra_cov={"selections_run": m.extra.get("selections", 0), "bound": ("S_q (<=25 lines) x default, fixtures also x jcl" if tier == "quick" else "all fix/cls seeds <= 40 lines + generated singles x default, every third fixture also x jcl")},
+        extra_cov={"selections_run": m.extra.get("selections", 0), "bound": ("S_q (<=25 lines) x default, fixtures also x jcl" if tier == "quick" else "all fix/cls seeds <= 30 lines + generated singles x default, every third fixture also x jcl")},
         reproduce=reproduce,
         technique="bounded-exhaustive enumeration of fix_only selections against the real code with a per-transition monitor and a differential oracle",
     )
